@@ -179,6 +179,8 @@ pub struct Shared {
     pub deltas_seen: u64,
     /// documents put into a store before the start (they count as issued operations)
     pub prefilled: Vec<Issued>,
+    /// per node: (ghost id, node whose address it has) pairs its views currently also name
+    pub ghosts: BTreeMap<u8, Vec<(u8, u8)>>,
 }
 
 pub type SharedRef = Rc<RefCell<Shared>>;
@@ -254,6 +256,7 @@ impl<'a> Cluster<'a> {
             subscribed: BTreeMap::new(),
             deltas_seen: 0,
             prefilled: Vec::new(),
+            ghosts: BTreeMap::new(),
         }));
         if let Some((node, ks, count)) = cfg.prefill.clone() {
             let mut sh = shared.borrow_mut();
@@ -369,6 +372,11 @@ impl<'a> Cluster<'a> {
                 if let Some(a) = sh.addrs.get(&n.id) {
                     m.insert(n.id, ClusterMember::new(n.id, *a, n.dc.clone()));
                 }
+            }
+        }
+        for (g, at) in sh.ghosts.get(&node).cloned().unwrap_or_default() {
+            if let (Some(a), Some(n)) = (sh.addrs.get(&at), cfgs.iter().find(|n| n.id == at)) {
+                m.insert(g, ClusterMember::new(g, *a, n.dc.clone()));
             }
         }
         let mut v = members.clone();
